@@ -1,4 +1,5 @@
 import UsualProofs.C01.Unlink
+import UsualProofs.C01.LogInv
 /-!
 # C01 — talloc: an object lives exactly while some parent or reference holds it
 
@@ -178,5 +179,58 @@ example :
     let s := runOps Cfg.fixed {} [.alloc none 8 true false, .alloc (some 0) 8 false false,
       .alloc (some 1) 8 false false, .reference (some 0) 2 false, .free 0]
     liveRegions s 0 = 0 ∧ liveRegions s 1 = 0 := by decide
+
+/-! ## destructors -/
+
+/-- the log invariant holds in every reachable state -/
+theorem reach_logInv (s : State) (h : Reach s) : LogInv s := by
+  induction h with
+  | init => exact logInv_empty
+  | step s op rk _ _ _ _ _ ih => exact step_logInv Cfg.fixed s op ih
+
+/-- **dtor_exactly_once** (`_partial`: at most once, and acceptance is final) — for EVERY history
+of public operations from the empty heap, with any arguments and in either configuration of
+the model (no well-formedness hypothesis, `talloc_disable_null_tracking` included): the
+destructor / release log (`State.log`, newest event first; the C harness prints the same log)
+is well formed in the sense of `LogWF` (UsualProofs/C01/LogInv.lean):
+* an accepting destructor call of `x` is logged only if no accepting call and no release of `x`
+  has happened before — an accepted destructor never runs again (the FLAG_PENDING guard answers
+  a re-entrant `talloc_free(self)`), also when the object has several references or is reached
+  again through `free_children`;
+* a refusing call of `x` likewise: no destructor call after acceptance or release;
+* `x` is released only if it has not been released before — no double release;
+hence at most one accepted call and at most one release per object, and a released id is dead.
+
+Full statement `dtor_exactly_once`: additionally, an object that is released while a destructor
+is set has seen exactly one accepting call of it, in the same `talloc_free`.  The half proved
+below as `accepted_is_released` is "accepted ⇒ released by the same operation"; the missing
+half ("released with a destructor set ⇒ the destructor was called") needs the history of the
+destructor slot, which the model's log does not record; the correspondence run compares the
+destructor logs of model and library after every operation. -/
+theorem dtor_exactly_once_partial (cfg : Cfg) (ops : List Op) (x : Id) :
+    LogWF (runOps cfg {} ops).log ∧
+    (runOps cfg {} ops).log.count (Event.dtorOk x) ≤ 1 ∧
+    (runOps cfg {} ops).log.count (Event.release x) ≤ 1 ∧
+    (Event.release x ∈ (runOps cfg {} ops).log → (runOps cfg {} ops).get x = none) := by
+  have i := runOps_logInv cfg ops {} logInv_empty
+  exact ⟨i.wf, (i.wf.counts x).2, (i.wf.counts x).1, i.relDead x⟩
+
+/-- **accepted_is_released**: between operations (reachable states: nothing is pending), an
+object whose destructor has accepted has been released — acceptance and release happen in the
+same `talloc_free` / `talloc_unlink` / `talloc_free_children`. -/
+theorem accepted_is_released (s : State) (h : Reach s) (x : Id) (hx : Event.dtorOk x ∈ s.log) :
+    Event.release x ∈ s.log ∧ s.get x = none := by
+  have i := reach_logInv s h
+  have w := (wfOK_iff s).1 (wf_reachable s h).1
+  rcases i.okRel x hx with h1 | ⟨xb, h1, h2⟩
+  · exact ⟨h1, i.relDead x h1⟩
+  · rw [w.noPending x xb h1] at h2; cases h2
+
+/-- non-vacuity: a destructor that refuses once and then accepts, on an object with a reference,
+freed twice; and a destructor that re-enters `talloc_free(self)`: each accepted once -/
+example :
+    let s := runOps Cfg.fixed {} [.alloc none 8 false false, .alloc (some 0) 8 false false,
+      .setDtor 1 (.refuse 1), .free 1, .free 1, .alloc (some 0) 8 false false, .setDtor 2 .reenter, .free 0]
+    s.log = [.release 0, .release 2, .dtorOk 2, .release 1, .dtorOk 1, .dtorRefuse 1] := by decide
 
 end UsualProps.C01
